@@ -176,6 +176,8 @@ def main():
         ck.broken.append('engines do not build: ' + (log if hv is None else log2)[-400:])
         ck.finish()
     hexsim, log3 = vlib.repo_tool('hexsim')
+    if hexsim is None:
+        ck.broken.append('hexsim does not build from the working tree: ' + log3[-300:])
     d = vlib.scratch()
     rng = ck.rng
     bins = []
@@ -344,6 +346,8 @@ def main():
     # the same tools as the project's default build compiles them (no optimisation): different stack residue
     xrun0, _ = vlib.repo_tool('xrun', flags='-O0')
     hexsim0, _ = vlib.repo_tool('hexsim', flags='-O0')
+    if rcc != 0 or not xrun0 or not hexsim0 or not xrun:
+        ck.broken.append('xrun/hexsim (-O0) or the dirty-stack preload do not build: the cut-short executable runs cannot be made')
     for rep in range(6 if not ck.thorough() else 200):
         if xrun0:
             cut_runs.append(('xrun', [xrun0, 'loop.x', '--max-cycles', '100'], {'SEEDPAD': 'q' * (rep * 24)}))
